@@ -69,6 +69,9 @@ func main() {
 		os.Exit(doReplayFile(*replay))
 	}
 	t0 := time.Now()
+	if os.Getenv("GOSYM_FORKS") != "" {
+		forkStats = map[string]int{}
+	}
 	props := map[string]*PropCfg{}
 	mustJSON(filepath.Join(verifDir, "props.json"), &props)
 	var known []KnownFinding
@@ -204,6 +207,9 @@ func main() {
 	}
 	if *only == "" {
 		writeEvidence(*prop, *tier, pc, hs, results, prog, time.Since(t0), nViol, cross, exit)
+	}
+	for _, k := range sortedKeys(forkStats) {
+		fmt.Fprintf(os.Stderr, "FORK %6d %s\n", forkStats[k], k)
 	}
 	fmt.Printf("[%s %s] done in %v exit=%d\n", *prop, *tier, time.Since(t0).Round(time.Millisecond), exit)
 	os.Exit(exit)
@@ -400,6 +406,7 @@ func runHarness(prog *ssa.Program, fn *ssa.Function, hc *HarnessCfg, known []Kno
 					}()
 					ex.RunPath(prefix, func() {
 						m = newMachine(prog, ex, &cfgCopy)
+						ex.site = m.where
 						m.callFunction(fn, nil, nil)
 						if n := len(m.heldLocks()); n > 0 && !m.cfg.noLockLeakCheck() {
 							ex.Fail("lock-leak: " + strings.Join(m.heldLocks(), ",") + " still held at return")
